@@ -79,6 +79,58 @@ def drive_dispatch(rec, names):
     rec.data["events"] = events
 
 
+def drive_leaves(rec, quick):
+    """the leaf kernels of the reim transforms (16, 8, 4 points, forward and inverse), portable against accelerated, with the real and the
+    imaginary half next to each other, in two separate arrays, and with the imaginary half BEFORE the real one: the same values up to
+    rounding, nothing written outside the 2 x K numbers"""
+    import numpy as np
+    from lib import Buf
+    rng = random.Random(rec.seed + 91)
+    L = Lib.get()
+    ok = 0
+    for K in (16, 8, 4):
+        for tr in ("fft", "ifft"):
+            omg = Buf(8 * 128, fill=0)
+            cur = ctypes.c_void_p(omg.addr)
+            L.fn("fill_reim_%s%d_omegas" % (tr, K), "v dp")(0.25, ctypes.addressof(cur))
+            for layout in ("adjacent", "separate", "imaginary first", "gap of 3"):
+                for rep in range(3 if quick else 20):
+                    re = np.array([float(rng.randrange(-1000, 1001)) for _ in range(K)])
+                    im = np.array([float(rng.randrange(-1000, 1001)) for _ in range(K)])
+                    outs = {}
+                    for variant in ("ref", "avx_fma"):
+                        if layout == "separate":
+                            A, B = Buf(8 * K, fill=0x4D), Buf(8 * K, fill=0x4D)
+                            pre, pim, whole = A.addr, B.addr, None
+                        else:
+                            gap = {"adjacent": 0, "imaginary first": 0, "gap of 3": 3}[layout]
+                            whole = Buf(8 * (2 * K + gap), fill=0x4D)
+                            pre, pim = (whole.addr, whole.addr + 8 * (K + gap)) if layout != "imaginary first" else (whole.addr + 8 * K, whole.addr)
+                        np.ctypeslib.as_array(ctypes.cast(pre, ctypes.POINTER(ctypes.c_double)), shape=(K,))[:] = re
+                        np.ctypeslib.as_array(ctypes.cast(pim, ctypes.POINTER(ctypes.c_double)), shape=(K,))[:] = im
+                        label = "reim_%s%d_%s, %s halves" % (tr, K, variant, layout)
+                        if not rec.progress(label):
+                            continue
+                        L.fn("reim_%s%d_%s" % (tr, K, variant), "v ppp")(pre, pim, omg.addr)
+                        o_re = np.ctypeslib.as_array(ctypes.cast(pre, ctypes.POINTER(ctypes.c_double)), shape=(K,)).copy()
+                        o_im = np.ctypeslib.as_array(ctypes.cast(pim, ctypes.POINTER(ctypes.c_double)), shape=(K,)).copy()
+                        fine = (A.canaries_ok() and B.canaries_ok()) if whole is None else whole.canaries_ok()
+                        if whole is not None and layout == "gap of 3":
+                            fine = fine and bool((whole.u8[8 * K:8 * (K + 3)] == 0x4D).all())
+                        rec.case(("leaf", tr, K, variant, layout))
+                        if not fine:
+                            rec.violation(label + ": wrote outside the 2 x %d numbers" % K, {})
+                            continue
+                        outs[variant] = np.concatenate([o_re, o_im])
+                    if len(outs) == 2:
+                        scale = float(np.max(np.abs(outs["ref"]))) or 1.0
+                        if not np.all(np.isfinite(outs["avx_fma"])) or float(np.max(np.abs(outs["ref"] - outs["avx_fma"]))) > scale * 1e-12:
+                            rec.violation("reim_%s%d: the accelerated leaf differs from the portable one (%s halves)" % (tr, K, layout), {"K": K, "tr": tr})
+                        else:
+                            ok += 1
+    rec.data["ok"] = ok
+
+
 def drive_big_prepare(rec, quick):
     """a prepared matrix of 16 MiB and more (N x rows x columns >= 2^21), at an address that is and is not 32-byte aligned: each
     dispatch writes the same bytes at both addresses, and the two dispatches agree up to the rounding of the transform"""
@@ -269,6 +321,9 @@ def run(chk, replay=None):
     chk.traces += sum(d["ok"] for d in pr if d)
     chk.cov["programs_identical_under_both_dispatches"] = sum(d["ok"] for d in pr if d)
     from common import isolated
+    dlf = isolated(chk, "leaf kernels of the reim transforms, portable against accelerated", drive_leaves, (quick,), timeout=600)
+    chk.traces += dlf["ok"] if dlf else 0
+    chk.cov["leaf_kernel_pairs_agreeing"] = dlf["ok"] if dlf else 0
     db = isolated(chk, "large prepared matrices under both dispatch configurations", drive_big_prepare, (quick,), timeout=1200)
     chk.traces += db["ok"] if db else 0
     chk.cov["rule"] = "one case = (kind, m, parameter, mask) / (kernel, variant, n, aliasing, value class) / (API call, mask, layout class)"
